@@ -165,7 +165,7 @@ Definition dispatch (cmd : string) (args : list sexp) : option sexp :=
       | Some ms, Some bs, Some x =>
           let heap := map (fun m => (fst (fst m), snd (fst m))) ms in
           let vals := build_vals (flat_map snd ms ++ flat_map snd bs) in
-          let st := mkSt heap vals FRESH_BASE in
+          let st := mkSt heap vals FRESH_BASE [] in
           Some (SL (map enc_event (run_program x (map fst bs) st)))
       | _, _, _ => None
       end
@@ -180,7 +180,7 @@ Definition dispatch (cmd : string) (args : list sexp) : option sexp :=
       match dec_list dec_mod mods with
       | Some ms =>
           let heap := map (fun m => (fst (fst m), snd (fst m))) ms in
-          let st := mkSt heap (build_vals (flat_map snd ms)) FRESH_BASE in
+          let st := mkSt heap (build_vals (flat_map snd ms)) FRESH_BASE [] in
           Some (match from_module (S (List.length heap)) heap root with
                 | FmNone => SA "none"
                 | FmOutOfFuel => SA "out-of-fuel"
@@ -191,7 +191,7 @@ Definition dispatch (cmd : string) (args : list sexp) : option sexp :=
   | "tdp-run", [nc; ents; ops] =>
       match dec_bool nc, dec_ents ents, dec_list dec_pop ops with
       | Some nc, Some (t, _), Some ops =>
-          let st := mkSt [] [] FRESH_BASE in
+          let st := mkSt [] [] FRESH_BASE [] in
           let s0 := reset_params (mkTdp t [] [] nc FRESH_BASE) in
           Some (SL (SL [enc_bool false; enc_reg st (tp_params s0); enc_reg st (tp_bufs s0); enc_ptd st (tp_td s0)]
                     :: run_ops_trace st s0 ops))
